@@ -36,6 +36,7 @@ func init() {
 		Canary: []CanaryExpect{
 			{Rule: "ROUND", Bad: "canaryBadQuoF", Good: "canaryGoodShiftF"},
 			{Rule: "UNIT-ZOOM", Bad: "canaryBadUnitZoomPartial", Good: "canaryGoodUnitZoomFinal"},
+			{Rule: "WINDOW-APPEND", Bad: "canaryBadWindow", Good: "canaryGoodWindow"},
 		}})
 	register(&propSpec{ID: "C09", Level: "other", Run: runC09,
 		Explain: otherNote + "C09: decided = every place that quantises or coarsens a vertical index (point lookup, zoom-out, merge ancestor, altitude-key scaling) uses one rounding mode, floor; the overlap check aligns zooms with integrate.ChangeExtendedSpatialIdsZoom itself at the per-axis minimum zoom; merge eligibility is the same per-axis ordering test.",
@@ -115,6 +116,7 @@ func runC04(w *World, r *Report, tier string) {
 	}
 	ruleWrapper(w, r, wrapperSpec{Wrapper: "integrate.MergeSpatialIds", Extended: "integrate.MergeExtendedSpatialIds", ZoomArg: 1, ExtH: 1, ExtV: 2, IDsArg: 0})
 	ruleEligibility(w, r)
+	ruleWindowAppend(w, r, cl)
 	ruleNoSkip(w, r, "integrate.MergeExtendedSpatialIds")
 	ruleUnitZoom(w, r)
 	ruleCacheKey(w, r, cl)
